@@ -76,7 +76,8 @@ Where each is read:
 * `phase_jump_time` (`pjt`) — `phaseJumpBuffer`;
 * `min_retarget_interval`, `fixed_retarget_t` — `retargetDelta`;
 * `eom_config` (presence) — `stepRaw` enable (`noEom`), `disableEom`;  `eom_config.mod_bandwidth`
-  (`EomCfg.rise`) — read through the oracle `fallEom` only;  `_eom_buffer_time`
+  (`EomCfg.rise`) — `ChanState.modeRise` (`getDuration`, `findAddDelay` in EOM mode), and the oracle
+  `fallEom`;  `_eom_buffer_time`
   (`EomCfg.bufferTime`) — `enableEom`, `disableEom`;  `eom_config.custom_buffer_time`
   (`EomCfg.customBuffer`) — `disableEom`. -/
 def timingFields : List String :=
